@@ -134,6 +134,39 @@ def actOut (files : List FileEnt) (a : Act) : FrameOut :=
 def trace (files : List FileEnt) (limit : Int) (sc : Scenario) : List FrameOut :=
   applyLimit limit ((acts "" false 0 sc.levels (raiseOff sc.raise)).reverse.map (actOut files))
 
+/-- the trace limit is part of a runtime's configuration and `Copy()` yields an equivalent runtime: a copy (of a
+    copy …) cuts traces at the limit configured on the original -/
+def traceCount (configured : Int) (depth : Nat) : Nat :=
+  (applyLimit configured (List.replicate (depth + 1) ())).length
+
+/-! ## what a reported offset denotes in the source text
+
+  The offset reported for a call site or a failing member access is where the callee / member expression starts:
+  at its first token (enclosing parentheses excluded) – the keyword `new` when the expression begins with a
+  `new` expression, the opening bracket / quote / brace of a literal, `this`, or the first identifier. -/
+
+inductive Head | any | ident | new_ | arr | str | obj | num | this_
+deriving Repr, DecidableEq
+
+def isIdentStart (b : Nat) : Bool :=
+  (65 ≤ b && b ≤ 90) || (97 ≤ b && b ≤ 122) || b = 95 || b = 36
+
+def startsWith (pre : List Nat) (s : Src) : Bool := (s.take pre.length) == pre
+
+/-- does the source text at idx `off` (base 1) begin with a token of kind `h`? -/
+def headAt (src : Src) (off : Int) (h : Head) : Bool :=
+  if off < 1 then h == .any else
+  let s := src.drop (off - 1).toNat
+  match h with
+  | .any => true
+  | .ident => match s with | b :: _ => isIdentStart b | [] => false
+  | .new_ => startsWith [110, 101, 119] s && (match s.drop 3 with | b :: _ => !isIdentStart b && !(48 ≤ b && b ≤ 57) | [] => false)
+  | .arr => startsWith [91] s
+  | .str => startsWith [34] s || startsWith [39] s
+  | .obj => startsWith [123] s
+  | .num => match s with | b :: _ => 48 ≤ b && b ≤ 57 | [] => false
+  | .this_ => startsWith [116, 104, 105, 115] s
+
 /-! ## deviation regions: decidable predicates over a request (used by the driver and as theorem hypotheses) -/
 
 /-- is the innermost activation a native one? -/
